@@ -502,7 +502,13 @@ func dirCase(scratch string, tree map[string]string, wd, dir, prefix string) str
 		if err := os.WriteFile(full, []byte(d), 0o644); err != nil {
 			return "scratch write failed: " + err.Error()
 		}
-		want[prefix+"/"+n] = d
+		if prefix == "" {
+			// the directory name is replaced by nothing: the names are the bare relative names, which is also
+			// what an archive holding these bare names hashes to (round 32)
+			want[n] = d
+		} else {
+			want[prefix+"/"+n] = d
+		}
 	}
 	old, err := os.Getwd()
 	if err != nil {
@@ -530,7 +536,7 @@ func dirPart(r *fw.Run) {
 	parent := filepath.Join(scratch, "dirpart")
 	trees := dirTrees()
 	sp := dirSpellings(parent)
-	prefixes := []string{"example.com/m@v1.0.0", "p"}
+	prefixes := []string{"example.com/m@v1.0.0", "p", ""}
 	r.Bounds["directory_spellings"] = len(sp)
 	r.Bounds["directory_trees"] = len(trees)
 	l := fw.NewLocal()
